@@ -22,6 +22,7 @@ import Scico.Proofs.LinOps13
 import Scico.Proofs.LinOps14
 import Scico.Proofs.LinOps15
 import Scico.Proofs.LinOps16
+import Scico.Proofs.LinOps17
 import Mathlib.Data.Complex.Basic
 import Mathlib.Tactic.NormNum
 
@@ -975,5 +976,30 @@ theorem C04_circ_nd_fft_crop {F : Type} [Field F] (dims : List Nat) (ws : List F
 -- a (2,3) filter on a (3,2) image: cropped to (2,2), keeping h[0,0], h[0,1], h[1,0], h[1,1]
 example : minShape [2, 3] [3, 2] = [2, 2]
     ∧ (List.range 4).map (cropFilter [2, 3] [3, 2] (fun q => [10, 11, 12, 20, 21, 22].getD q 0)) = [10, 11, 20, 21] := by decide
+
+
+/-! ## Round 4 -/
+
+/-! ### optical propagators `F⁻¹ D F` -/
+
+/-- `Propagator._eval = F.inv(D @ F @ x)` without padding (`pad_factor = 1`), over any subset of transformed axes and for
+    every DFT normalisation: with the transfer function `D ≡ 1` (propagation distance `z = 0`: `exp(0)`) the propagator is
+    the identity, and propagators compose like their transfer functions — propagating with `D₂` and then with `D₁` is
+    propagating with `D₁·D₂` (for `D_z = exp(i z φ)`: distances add).  With `pad_factor > 1` the coded inverse crops the
+    spectrum (known finding `dft-inv-padded`), so neither holds there; with the documented inverse the identity for `D ≡ 1`
+    is `C04_dft_nd_inv_documented`. -/
+theorem C04_propagator_semigroup {F : Type} [Field F] (ns : List Nat) (ws : List (Option F)) (s s' : F) (D1 D2 x : V F)
+    (p : Nat) (hr : RootsOpt ns ws) (hs : s * s' * (dftAxesSize ns ws : F) = 1) (hp : p < prodL ns) :
+    ((∀ f, f < prodL ns → D1 f = 1) → propEval ns ns ws (ws.map (Option.map (·⁻¹))) s s' D1 x p = x p)
+    ∧ propEval ns ns ws (ws.map (Option.map (·⁻¹))) s s' D1 (propEval ns ns ws (ws.map (Option.map (·⁻¹))) s s' D2 x) p
+        = propEval ns ns ws (ws.map (Option.map (·⁻¹))) s s' (fun f => D1 f * D2 f) x p :=
+  ⟨fun hD => prop_one ns ws s s' D1 x p hr hs hD hp, prop_mul ns ws s s' D1 D2 x p hr hs hp⟩
+
+-- a 2-point propagator over ℚ with D = (1, -1): applying it twice is the identity (D·D = 1)
+example : (List.range 2).map (propEval (α := ℚ) [2] [2] [some (-1)] [some (-1)] 1 (1 / 2) (fun f => if f = 0 then 1 else -1)
+    (propEval [2] [2] [some (-1)] [some (-1)] 1 (1 / 2) (fun f => if f = 0 then 1 else -1) (fun j => if j = 0 then 3 else 5)))
+    = [3, 5] := by
+  simp [propEval, dftInvCodedNd, dftFwdPad, dftAxes, padNd, slab, prodL, sumTo, dftEval.npow, List.range, List.range.loop]
+  norm_num
 
 end Scico.Props.C04
